@@ -97,10 +97,16 @@ func c17Post(rc *RunCtx) {
 		sc.Buffer(make([]byte, 1<<20), 64<<20)
 		cur := -1
 		sawEnd := false
+		needles := append([]string{}, c17Needles...)
 		for sc.Scan() {
 			l := sc.Text()
 			lines++
 			bytesN += int64(len(l)) + 1
+			if strings.HasPrefix(l, "VERIFNEEDLE ") {
+				// a driver working with real sockets announces the client address of its next case
+				needles = append(needles, strings.TrimSpace(strings.TrimPrefix(l, "VERIFNEEDLE ")))
+				continue
+			}
 			if strings.HasPrefix(l, "VERIFCASE ") {
 				fmt.Sscanf(l, "VERIFCASE %d", &cur)
 				markers++
@@ -109,7 +115,7 @@ func c17Post(rc *RunCtx) {
 				}
 				continue
 			}
-			for _, n := range c17Needles {
+			for _, n := range needles {
 				if strings.Contains(l, n) {
 					sig := "log-leak:" + c17Site(l, n)
 					show := l
@@ -149,6 +155,7 @@ func init() {
 		Stages: []Stage{
 			{Name: "conns", Dir: "cmd/application", Pkg: ".", Run: "^TestVerifC17Conns$", Drivers: []string{"app"}, Exports: []string{"lib"}, TimeoutQ: 6 * time.Minute, TimeoutT: 60 * time.Minute},
 			{Name: "proxyheader", Dir: "cmd/application", Pkg: ".", Run: "^TestVerifC17ProxyHeader$", Drivers: []string{"app"}, Exports: []string{"lib"}, TimeoutQ: 6 * time.Minute, TimeoutT: 60 * time.Minute},
+			{Name: "fdexhaust", Dir: "cmd/application", Pkg: ".", Run: "^TestVerifC17FdExhaust$", Drivers: []string{"app"}, Exports: []string{"lib"}, TimeoutQ: 6 * time.Minute, TimeoutT: 30 * time.Minute},
 			{Name: "ingest", Pkg: "./pkg/station/lib", Run: "^TestVerifC17Ingest$", Drivers: []string{"lib"}, Exports: []string{"cdtls"}, TimeoutQ: 6 * time.Minute, TimeoutT: 60 * time.Minute},
 		},
 		Post: c17Post,
